@@ -1151,12 +1151,15 @@ func (g *gen) plainType(exts []int, typeParam string) (string, []string) {
 var padChunks = []string{"x", "lorem ipsum ", "SELECT a, b FROM t WHERE a = 1 AND ", "0123456789abcdef", "m1(); int k = 2; ", "données ", "日本語"}
 
 // padText draws a text of 500..6000 bytes, rarely of 60000..70000 (longer than the 64 KiB token limit of
-// line scanners): one chunk repeated, so that it costs few draws and shrinks well.
+// line scanners) and now and then of 1.1 million: one chunk repeated, so that it costs few draws and shrinks well.
 func (g *gen) padText(label string) string {
 	t := g.t
 	n := 0
 	if rapid.IntRange(0, 19).Draw(t, label+"PadHuge") == 19 {
 		n = rapid.IntRange(60000, 70000).Draw(t, label+"PadHugeLen")
+		if rapid.IntRange(0, 5).Draw(t, label+"PadMebibyte") == 5 {
+			n = 1100000 // past the mebibyte a line reader with an enlarged buffer takes
+		}
 	} else {
 		n = rapid.IntRange(500, 6000).Draw(t, label+"PadLen")
 	}
